@@ -436,6 +436,22 @@ func (o *qOracle) validateEnqueue(step int, prev, next Snap, r resolvedOp, res Q
 				return f
 			}
 		}
+		// drop_oldest "makes room by evicting the oldest queued messages": a refusal as full is explained only
+		// when there are not enough queued messages to evict (memory with delivered retention also counts
+		// delivered messages against max_depth, see DESIGN 0.2 C12). Queues an operator lifted above max_depth
+		// are left alone (observed, not judged).
+		if res.Err == "full" && o.cfg.Drop == "drop_oldest" && o.cfg.MaxDepth > 0 && n <= o.cfg.MaxDepth && activeAfterPrune <= o.cfg.MaxDepth {
+			need := activeAfterPrune + n - o.cfg.MaxDepth
+			if o.backend == "memory" && o.cfg.DelivMs > 0 {
+				if d := activeAfterPrune + deliveredAfterPrune + n - o.cfg.MaxDepth; d > need {
+					need = d
+				}
+			}
+			if need <= queuedAfterPrune {
+				o.label("drop-oldest-refused-with-room")
+				return fail("C12", "drop-oldest-refused-with-room", step, "drop_oldest: enqueue of %d refused as full although %d queued messages could be evicted (active %d, delivered %d, max_depth %d)", n, queuedAfterPrune, activeAfterPrune, deliveredAfterPrune, o.cfg.MaxDepth)
+			}
+		}
 		return nil // all remaining changes are judged by the generic side-effect pass
 	}
 
